@@ -448,4 +448,178 @@ theorem enc_total (d : Defs) : ∀ (n : Nat) (t : Ty) (v : Val), WT d n t v → 
       exact ⟨_, by rw [hes]⟩
     · exact absurd hwt (by simp)
 
+/-- One unknown field at any point of the emitted field loop: it is skipped and the state of the loop
+(the fields read so far) is unchanged. -/
+theorem decFields_skip_unknown (dec : Ty → List Event → Res (Val × List Event))
+    (skp : Nat → List Event → Res (List Event)) (sd : StructDef) (fuel : Nat)
+    (nm : String) (tt : Nat) (uid : Int) (body rest : List Event) (acc : List (Int × Val))
+    (hunk : sd.fields.find? (·.id = uid) = none)
+    (hskip : skp tt (body ++ .fe :: rest) = .ok (.fe :: rest)) :
+    decFields dec skp sd (fuel + 1) (.fb nm tt uid :: (body ++ .fe :: rest)) acc = decFields dec skp sd fuel rest acc := by
+  rw [decFields]
+  simp only [hunk, hskip]
+
+theorem skipN_enc (P : Val → Prop) (enc : Val → Res (List Event)) (sk : Nat → List Event → Res (List Event)) (tt : Nat)
+    (ih : ∀ x c rest, P x → enc x = .ok c → sk tt (c ++ rest) = .ok rest) :
+    ∀ (vs : List Val) (cs : List (List Event)) (rest : List Event),
+      All2 (fun x c => enc x = .ok c) vs cs → (∀ x ∈ vs, P x) →
+      skipN sk vs.length tt (cs.flatten ++ rest) = .ok rest := by
+  intro vs cs rest hf
+  induction hf with
+  | nil => intro _; simp [skipN]
+  | @cons x c xs cs' hx _ ih2 =>
+    intro hwt
+    simp only [List.length_cons, List.flatten_cons, List.append_assoc]
+    rw [skipN, ih x c _ (hwt x (by simp)) hx]
+    exact ih2 (fun y hy => hwt y (by simp [hy]))
+
+theorem skipKV_enc (Pk Pv : Val → Prop) (enck encv : Val → Res (List Event))
+    (sk : Nat → List Event → Res (List Event)) (kt vt : Nat)
+    (ihk : ∀ x c rest, Pk x → enck x = .ok c → sk kt (c ++ rest) = .ok rest)
+    (ihv : ∀ x c rest, Pv x → encv x = .ok c → sk vt (c ++ rest) = .ok rest) :
+    ∀ (kvs : List (Val × Val)) (cs : List (List Event)) (rest : List Event),
+      All2 (fun (kv : Val × Val) c => concatRes [enck kv.1, encv kv.2] = .ok c) kvs cs →
+      (∀ kv ∈ kvs, Pk kv.1 ∧ Pv kv.2) →
+      skipKV sk kt vt kvs.length (cs.flatten ++ rest) = .ok rest := by
+  intro kvs cs rest hf
+  induction hf with
+  | nil => intro _; simp [skipKV]
+  | @cons kv c xs cs' hx _ ih2 =>
+    intro hwt
+    obtain ⟨k, v⟩ := kv
+    have hw := hwt (k, v) (by simp)
+    obtain ⟨ck, cv, hck, hcv, rfl⟩ := concatRes_pair _ _ _ hx
+    simp only [List.length_cons, List.flatten_cons, List.append_assoc]
+    rw [skipKV, ihk k ck _ hw.1 hck]
+    simp only
+    rw [ihv v cv _ hw.2 hcv]
+    exact ih2 (fun y hy => hwt y (by simp [hy]))
+
+/-- Skipping the chunks the emitted field writers produced, up to FieldStop / StructEnd. -/
+theorem skipFields_enc (d : Defs) (enc : Ty → Val → Res (List Event)) (sk : Nat → List Event → Res (List Event))
+    (sd : StructDef) (fs : List (Int × Val))
+    (ih : ∀ f ∈ sd.fields, ∀ x c rest, lookupVal fs f.id = some x → enc f.ty x = .ok c →
+            sk (wireOf d f.ty) (c ++ rest) = .ok rest)
+    (habs : ∀ f ∈ sd.fields, lookupVal fs f.id = none → f.req = .optional ∨ sd.kind = .union) :
+    ∀ (fl : List Field) (cs : List (List Event)) (rest : List Event) (fuel : Nat),
+      All2 (fun f c => fieldEvents d enc sd fs f = .ok c) fl cs →
+      (∀ f ∈ fl, f ∈ sd.fields) → (entries fs fl).length + 1 ≤ fuel →
+      skipFields sk fuel (cs.flatten ++ .fs :: .se :: rest) = .ok rest := by
+  intro fl cs rest fuel hf
+  induction hf generalizing fuel with
+  | nil =>
+    intro _ hfuel
+    cases fuel with
+    | zero => simp [entries] at hfuel
+    | succ k => simp [skipFields]
+  | @cons f c fl' cs' hx _ ih2 =>
+    intro hsub hfuel
+    have hfm : f ∈ sd.fields := hsub f (by simp)
+    cases hl : lookupVal fs f.id with
+    | none =>
+      have hc : c = [] := by
+        simp only [fieldEvents, hl] at hx
+        rw [if_pos (habs f hfm hl)] at hx
+        cases hx; rfl
+      subst hc
+      have he : entries fs (f :: fl') = entries fs fl' := by simp [entries, hl]
+      rw [he] at hfuel
+      simp only [List.flatten_cons, List.nil_append]
+      exact ih2 fuel (fun g hg => hsub g (by simp [hg])) hfuel
+    | some x =>
+      have he : entries fs (f :: fl') = (f.id, x) :: entries fs fl' := by simp [entries, hl]
+      rw [he] at hfuel
+      simp only [fieldEvents, hl] at hx
+      split at hx
+      · rename_i body hbody
+        cases hx
+        cases fuel with
+        | zero => simp at hfuel
+        | succ k =>
+          simp only [List.flatten_cons, List.cons_append, List.append_assoc, List.nil_append]
+          rw [skipFields, ih f hfm x body _ hl hbody]
+          simp only
+          exact ih2 k (fun g hg => hsub g (by simp [hg])) (by simp at hfuel; omega)
+      · cases hx
+      · cases hx
+
+theorem wireOf_of_resolve (d : Defs) (t : Ty) : wireOf d t = (match resolve d t with
+  | .bool => 2 | .byte => 3 | .double => 4 | .i16 => 6 | .i32 => 8 | .i64 => 10
+  | .string => 11 | .binary => 11 | .enum _ => 8 | .struct _ => 12
+  | .map _ _ => 13 | .set _ => 14 | .list _ => 15
+  | .typedef _ => 0) := rfl
+
+/-- `Skip` consumes exactly the encoding of a well-typed value (of any type): this is why a field the
+reader does not know can be skipped whatever it contains. -/
+theorem skip_enc (d : Defs) : ∀ (n : Nat) (t : Ty) (v : Val) (es rest : List Event),
+    WT d n t v → encV d n t v = .ok es → skip n (wireOf d t) (es ++ rest) = .ok rest := by
+  intro n
+  induction n with
+  | zero => intro t v es rest h; simp [WT] at h
+  | succ n ih =>
+    intro t v es rest hwt henc
+    unfold WT at hwt
+    unfold encV at henc
+    rw [wireOf_of_resolve]
+    split at hwt
+    all_goals (rename_i hres; simp only [hres] at henc ⊢)
+    all_goals (try (cases henc; simp [skip]; done))
+    · rename_i a vs
+      split at henc
+      · rename_i body hbody
+        cases henc
+        obtain ⟨cs, hall, rfl⟩ := concatRes_map_ok _ _ _ hbody
+        simp only [List.cons_append, List.nil_append, List.append_assoc, skip]
+        rw [skipN_enc (WT d n a) (encV d n a) (skip n) (wireOf d a) (fun x c r hx hc => ih a x c r hx hc) vs cs _ hall hwt]
+      · cases henc
+      · cases henc
+    · rename_i a vs
+      split at henc
+      · rename_i body hbody
+        cases henc
+        obtain ⟨cs, hall, rfl⟩ := concatRes_map_ok _ _ _ hbody
+        simp only [List.cons_append, List.nil_append, List.append_assoc, skip]
+        rw [skipN_enc (WT d n a) (encV d n a) (skip n) (wireOf d a) (fun x c r hx hc => ih a x c r hx hc) vs cs _ hall hwt]
+      · cases henc
+      · cases henc
+    · rename_i kt vt kvs
+      split at henc
+      · rename_i body hbody
+        cases henc
+        obtain ⟨cs, hall, rfl⟩ := concatRes_map_ok _ _ _ hbody
+        simp only [List.cons_append, List.nil_append, List.append_assoc, skip]
+        rw [skipKV_enc (WT d n kt) (WT d n vt) (encV d n kt) (encV d n vt) (skip n) (wireOf d kt) (wireOf d vt)
+          (fun x c r hx hc => ih kt x c r hx hc) (fun x c r hx hc => ih vt x c r hx hc) kvs cs _ hall hwt]
+      · cases henc
+      · cases henc
+    · rename_i nm fs
+      obtain ⟨sd, hsd, hnd, hcanon, hun, hreq, hfields⟩ := hwt
+      simp only [hsd] at henc
+      split at henc
+      · cases henc
+      · split at henc
+        · rename_i body hbody
+          cases henc
+          obtain ⟨cs, hall, rfl⟩ := concatRes_map_ok _ _ _ hbody
+          simp only [List.cons_append, List.nil_append, List.append_assoc, skip]
+          exact skipFields_enc d (encV d n) (skip n) sd fs
+            (fun f hf x c r hl hc => ih f.ty x c r (hfields f hf x hl) hc)
+            (by
+              intro f hf hl
+              cases hr : f.req with
+              | optional => exact Or.inl rfl
+              | required | default =>
+                right
+                cases hk : sd.kind with
+                | union => rfl
+                | struct | exception =>
+                  have := hreq f hf (by rw [hr]; intro h; cases h) (by rw [hk]; intro h; cases h)
+                  rw [hl] at this; cases this)
+            sd.fields cs rest _ hall (fun f hf => hf) (by
+              have := entries_length_le d (encV d n) sd fs sd.fields cs hall
+              simp only [List.length_append, List.length_cons]; omega)
+        · cases henc
+        · cases henc
+    · exact absurd hwt (by simp)
+
 end FV.Thrift
